@@ -201,6 +201,69 @@ static void do_ser(char *arg) {
     nvm_module_free(m);
 }
 
+/* ---- exhaustive / sampled damage on the implementation (C12 oracle: nvm_deserialize == NULL) ---- */
+static int loads(const uint8_t *b, size_t n) {
+    uint8_t *c = malloc(n ? n : 1);          /* exact-size copy so that a sanitizer sees any over-read */
+    memcpy(c, b, n);
+    NvmModule *m = nvm_deserialize(c, (uint32_t)n);
+    free(c);
+    if (m) { nvm_module_free(m); return 1; }
+    return 0;
+}
+
+static void do_flipall(char *arg) {
+    size_t n; uint8_t *b = unhex(arg, &n);
+    if (!b) { puts("bad-op"); return; }
+    size_t flips = 0, acc = 0; long first = -1;
+    for (size_t bit = (size_t)NVM_HEADER_SIZE * 8; bit < n * 8; bit++) {
+        b[bit / 8] ^= (uint8_t)(1u << (bit % 8));
+        NvmModule *m = nvm_deserialize(b, (uint32_t)n);
+        if (m) { acc++; if (first < 0) first = (long)bit; nvm_module_free(m); }
+        b[bit / 8] ^= (uint8_t)(1u << (bit % 8));
+        flips++;
+    }
+    printf("flips=%zu accepted=%zu first=%ld\n", flips, acc, first);
+    free(b);
+}
+
+static void do_truncall(char *arg) {
+    size_t n; uint8_t *b = unhex(arg, &n);
+    if (!b) { puts("bad-op"); return; }
+    size_t acc = 0; long first = -1;
+    for (size_t k = 0; k < n; k++) if (loads(b, k)) { acc++; if (first < 0) first = (long)k; }
+    printf("truncations=%zu accepted=%zu first=%ld\n", n, acc, first);
+    free(b);
+}
+
+static uint64_t xs(uint64_t *s) { uint64_t x = *s; x ^= x << 13; x ^= x >> 7; x ^= x << 17; return *s = x; }
+
+static void do_bursts(char *arg) {
+    /* <seed> <count> <hex> */
+    char *save = NULL;
+    char *t1 = strtok_r(arg, " ", &save), *t2 = strtok_r(NULL, " ", &save), *t3 = strtok_r(NULL, " ", &save);
+    if (!t1 || !t2 || !t3) { puts("bad-op"); return; }
+    uint64_t st = strtoull(t1, NULL, 10) * 2654435761u + 88172645463325252ull;
+    size_t count = strtoull(t2, NULL, 10);
+    size_t n; uint8_t *b = unhex(t3, &n);
+    if (!b || n <= NVM_HEADER_SIZE) { puts("bursts=0 accepted=0 first=-"); free(b); return; }
+    size_t body_bits = (n - NVM_HEADER_SIZE) * 8, acc = 0, done = 0;
+    char first[64] = "-";
+    for (size_t it = 0; it < count; it++) {
+        unsigned len = 1 + (unsigned)(xs(&st) % 32);
+        if (len > body_bits) len = (unsigned)body_bits;
+        size_t off = (size_t)(xs(&st) % (body_bits - len + 1));
+        uint32_t pat = (uint32_t)xs(&st);
+        pat |= 1u; if (len < 32) pat &= (1u << len) - 1; pat |= 1u << (len - 1);
+        for (unsigned k = 0; k < len; k++) if (pat >> k & 1) { size_t bit = (size_t)NVM_HEADER_SIZE * 8 + off + k; b[bit / 8] ^= (uint8_t)(1u << (bit % 8)); }
+        NvmModule *m = nvm_deserialize(b, (uint32_t)n);
+        if (m) { acc++; if (first[0] == '-') snprintf(first, sizeof first, "%zu:%u:%u", off, len, pat); nvm_module_free(m); }
+        for (unsigned k = 0; k < len; k++) if (pat >> k & 1) { size_t bit = (size_t)NVM_HEADER_SIZE * 8 + off + k; b[bit / 8] ^= (uint8_t)(1u << (bit % 8)); }
+        done++;
+    }
+    printf("bursts=%zu accepted=%zu first=%s\n", done, acc, first);
+    free(b);
+}
+
 int main(void) {
     char *line = NULL; size_t cap = 0; ssize_t len;
     while ((len = getline(&line, &cap, stdin)) > 0) {
@@ -215,6 +278,9 @@ int main(void) {
         else if (!strcmp(line, "crc")) do_crc(arg);
         else if (!strcmp(line, "nvm.load")) do_load(arg);
         else if (!strcmp(line, "nvm.ser")) do_ser(arg);
+        else if (!strcmp(line, "nvm.flipall")) do_flipall(arg);
+        else if (!strcmp(line, "nvm.truncall")) do_truncall(arg);
+        else if (!strcmp(line, "nvm.bursts")) do_bursts(arg);
         else puts("bad-op");
     }
     free(line);
